@@ -127,22 +127,4 @@ Proof.
   rewrite sum_map. reflexivity.
 Qed.
 
-(* rule 3 (the one the library uses) is symmetric only up to the last table digit; what survives exactly enough:
-   its moments are invariant under permutations of the exponents within 1e-15 up to its degree *)
-Local Open Scope Q_scope.
-Definition mom_perm_ok (rule : list qpoint) (m : nat * nat * nat) : bool :=
-  let '(a, b, c) := m in
-  within eps15 (moment_r rule a b c - moment_r rule b c a) && within eps15 (moment_r rule a b c - moment_r rule b a c).
-Lemma rule3_moments_perm_ok : forallb (mom_perm_ok (rule_of_order 3)) (monos 8) = true.
-Proof. vm_compute. reflexivity. Qed.
-Lemma mom_perm_spec rule d : forallb (mom_perm_ok rule) (monos d) = true ->
-  forall a b c, (a + b + c <= d)%nat ->
-  (- eps15 <= moment rule a b c - moment rule b c a /\ moment rule a b c - moment rule b c a <= eps15) /\
-  (- eps15 <= moment rule a b c - moment rule b a c /\ moment rule a b c - moment rule b a c <= eps15).
-Proof.
-  intros K a b c H. rewrite forallb_forall in K.
-  specialize (K (a, b, c) (monos_complete d a b c H)). unfold mom_perm_ok in K.
-  rewrite andb_true_iff in K. destruct K as [K1 K2]. apply within_spec in K1, K2.
-  rewrite !moment_r_eq in K1, K2. auto.
-Qed.
-Definition rule3_moments_perm := mom_perm_spec (rule_of_order 3) 8 rule3_moments_perm_ok.
+(* rule 3's moment invariance under permutations of the exponents (within 1e-15): Geom/QuadTablesBig.v, rule3_moments_perm *)
